@@ -293,7 +293,7 @@ def run(ctx):
     ctx.proof_phase(MODULE, THEOREMS, refutations=REFUTATIONS)
     drv = ctx.driver("Drivers.C20")
     rng = ctx.sub_rng("programs")
-    nprog = ctx.budget(140, 3000)
+    nprog = ctx.budget(220, 4000)
     if ctx.replay_in:
         import json
         rp = json.load(open(ctx.replay_in))["replay"]
@@ -327,6 +327,8 @@ def run(ctx):
             small_src = r["src"]
             if P is not None and nfail < 3 and ctx.known_match(sig) is None:
                 def still(c, sig=sig):
+                    if not c["evidence"]:
+                        return False
                     r2 = work(spine.to_src(c))
                     return any(s2.get("kind") == sig.get("kind") and s2.get("mode") == sig.get("mode") and
                                s2.get("exc") == sig.get("exc") and s2.get("site") == sig.get("site") for _, s2 in r2["fails"])
